@@ -58,6 +58,48 @@ CLAIMS = {
              "self-match sweep. bdw/csx/skx are empty in this sandbox and skipped.",
         technique="Lean 4 proof (decide +kernel tables from YAML + general costing lemma) + exhaustive correspondence",
     ),
+    "C03": dict(
+        text="Theorem scan_iff_raw (all kernels, by induction over the scanned suffix): the forward scan of find_depending emits "
+             "exactly the read-after-write positions (reads t, no earlier write of t) with the producer's tag; no_edge_past_kill, "
+             "findDepending_forward (edges point forward), edge_weight_spec, flags_ignored_without_option. Tie: register tables from "
+             "the parser sources (C12) + create_DG of the real code vs DG.create edge by edge with weights; oracle: declarative "
+             "Spec.rawEdges vs the implementation's edges.",
+        design="5/C03", note=COMMON_NOTE + "Modelled not verified: networkx path search (replaced by the model's own enumeration), the parsers and the role assignment (taken from the implementation per kernel: the model consumes the implementation's semantic operands, latencies and register changes). Graph-level corollary edges(create k) <-> Spec.rawAt is checked by the oracle, not yet a theorem.",
+        technique="Lean 4 proof (induction over the scan) + differential correspondence of the dependency graph",
+    ),
+    "C04": dict(
+        text="The pinned code violates the property (known finding cp-underreport). Proved: the negative result on a witness "
+             "(cp_underreports, replayed on the real code) and cp_no_deps for all kernels; the Lean model of the code as it is "
+             "(cpCandidates) is tied to get_critical_path by correspondence, and Spec.longestChain is evaluated on every kernel: "
+             "over-reporting, broken chains, sub-single-instruction values and deviations from the model are reported.",
+        category="translation_validation",
+        design="5/C04", note=COMMON_NOTE + "Modelled not verified: networkx path search (replaced by the model's own enumeration), the parsers and the role assignment (taken from the implementation per kernel: the model consumes the implementation's semantic operands, latencies and register changes). Under-reporting is the known finding; not claimed at proof level because the full statement is false of the code.",
+        technique="Lean 4 model + negative theorem on a witness; differential correspondence and Spec oracle",
+    ),
+    "C05": dict(
+        text="Theorems for all kernels and line numbers: offset_ok (the second copy never collides with a kernel line), map_back, "
+             "double_disjoint, sortPairs_perm. The cycle characterisation itself is decided per kernel by the independent Lean oracle "
+             "Spec.cycles over the dependency relation of two concatenated iterations and by correspondence with LCD.lcd, including "
+             "kernels starting at lines ~1000 and ~5000.",
+        design="5/C05", note=COMMON_NOTE + "Modelled not verified: networkx path search (replaced by the model's own enumeration), the parsers and the role assignment (taken from the implementation per kernel: the model consumes the implementation's semantic operands, latencies and register changes). lcd_sound_complete (reported = Spec.cycles for all kernels) is not yet a theorem: checked by oracle + correspondence.",
+        technique="Lean 4 proof (offset arithmetic) + differential correspondence + independent cycle enumeration",
+    ),
+    "C06": dict(
+        text="Theorems about the model of is_memload/_update_reg_changes for all registers, displacements and tracked increments: "
+             "same_location_edge, untouched_iff_disp_eq, no_edge_when_disp_differs / regs_differ / unknown / scale_differs / "
+             "base_vs_nobase, store_ends_search (all suffixes), update_add_add. Tie: create_DG on generated store/load kernels of both "
+             "ISAs vs the model; oracle: the generator's own symbolic bookkeeping (edge iff same location, with the forwarding weight).",
+        design="5/C06", note=COMMON_NOTE + "Modelled not verified: networkx path search (replaced by the model's own enumeration), the parsers and the role assignment (taken from the implementation per kernel: the model consumes the implementation's semantic operands, latencies and register changes). Not covered: a load that overwrites its own address register; pre-indexed loads directly aliasing the store.",
+        technique="Lean 4 proof (decision logic of the address comparison) + differential correspondence + symbolic oracle",
+    ),
+    "C14": dict(
+        text="Metamorphic check on the real code for every rotation offset (cycles mapped to instruction identities, latencies, "
+             "maximum) plus correspondence of every rotated kernel with the Lean model LCD.lcd; proved so far only the structural "
+             "facts about rotation (permutation, composition, renumbering). The central invariance theorem is not proved yet.",
+        category="translation_validation",
+        design="5/C14", note=COMMON_NOTE + "Modelled not verified: networkx path search (replaced by the model's own enumeration), the parsers and the role assignment (taken from the implementation per kernel: the model consumes the implementation's semantic operands, latencies and register changes). lcd_rotation_invariant is stated (TODO-FULL) but not proved; claimed below proof level.",
+        technique="Lean 4 model + metamorphic differential validation on implementation and model",
+    ),
 }
 
 REASON_TODO = "no theorem + checked tie built yet in this round; planned per DESIGN.md section 5 (not claimed until both exist)"
